@@ -1,6 +1,8 @@
 //! shared helpers for the state-res / authorization checks (C06 C07 C08 C09 C20)
 pub mod cases;
+pub mod history;
 pub mod pdu;
 pub mod spec_auth;
+pub mod spec_res;
 pub mod tpi;
 pub mod world;
